@@ -74,9 +74,18 @@ def corr(rep: C.Report, tier: str):
 def search(rep: C.Report, tier: str, broken):
     r = C.rng("C13search")
     Ns = (5, 7, 9) if tier == "quick" else (5, 7, 9, 11, 13, 15)
+    from WallGo.polynomial import Polynomial
+    bases = [("Cardinal", "Cardinal"), ("Cardinal", "Chebyshev"), ("Chebyshev", "Cardinal"), ("Chebyshev", "Chebyshev")]
     for N in Ns:
         for Tscale, y2 in (((1.0, 0.3), (0.05, 2.0)) if tier == "quick" else ((1.0, 0.3), (0.05, 2.0), (30.0, 0.0), (1.0, 5.0))):
-            solver, grid, parts, clean = B.make_solver(M=4, N=N, basisM="Cardinal", basisN="Cardinal", Tscale=Tscale, y2=(y2,))
+            bM, bN = bases[(N + int(y2 * 10)) % 4] if tier == "quick" else r.choice(bases)
+            solver, grid, parts, clean = B.make_solver(M=4, N=N, basisM=bM, basisN=bN, Tscale=Tscale, y2=(y2,))
+
+            def to_solver_basis(dFcard, solver=solver, grid=grid):
+                """the deviation is specified by its grid values; the solver takes coefficients in ITS basis"""
+                pl = Polynomial(np.array(dFcard, dtype=float), grid, ("Array", "Cardinal", "Cardinal", "Cardinal"), ("Array", "z", "pz", "pp"), False)
+                pl.changeBasis(("Array", solver.basisM, solver.basisN, solver.basisN))
+                return pl.coefficients
             try:
                 solver.setBackground(B.background(grid, dphi=1.0 * Tscale, phi0=0.2 * Tscale, T0=Tscale))
                 W = _weights(solver, grid, parts)
@@ -93,21 +102,22 @@ def search(rep: C.Report, tier: str, broken):
                     Wm = np.broadcast_to(W[nm], (1, 3, n, n))
                     with np.errstate(divide="ignore", invalid="ignore"):
                         dF = np.where(Wm != 0, phi[None, None] / Wm, 0.0)
-                    res = solver.getDeltas(dF)
+                    res = solver.getDeltas(to_solver_basis(dF))
                     got = getattr(res.Deltas, nm).coefficients[0]
                     want = sum(c * _sqrtm(k) for k, c in enumerate(ca)) * sum(c * _sqrtm(k) for k, c in enumerate(cb))
                     sc = sum(abs(c) for c in ca) * sum(abs(c) for c in cb)
-                    rep.case(key=(N, Tscale, y2, nm, da, db),
+                    rep.count(f"basis {bM}/{bN}")
+                    rep.case(key=(N, Tscale, y2, nm, da, db, bM, bN),
                              sample={"N": N, "moment": nm, "deg": [da, db], "got": got.tolist(), "exact": want} if len(rep.samples) < 3 else None)
                     rep.count(f"search {nm}")
                     if np.max(np.abs(got - want)) > 1e-9 * sc:
                         rep.violation(f"{nm} is not the exact momentum integral on the exactness family",
-                                      {"N": N, "momentumFalloffT": Tscale, "y2": y2, "moment": nm, "poly_rz": ca, "poly_rp": cb,
+                                      {"N": N, "momentumFalloffT": Tscale, "y2": y2, "moment": nm, "basisM": bM, "basisN": bN, "poly_rz": ca, "poly_rp": cb,
                                        "got": got.tolist(), "exact": want}, finding_key=f"C13:{nm}")
                     # linearity
                     dF2 = np.array([r.uniform(-1, 1) for _ in range(3 * n * n)]).reshape(1, 3, n, n)
-                    a1 = getattr(solver.getDeltas(dF + 2.5 * dF2).Deltas, nm).coefficients
-                    a2 = got[None] + 2.5 * getattr(solver.getDeltas(dF2).Deltas, nm).coefficients
+                    a1 = getattr(solver.getDeltas(to_solver_basis(dF + 2.5 * dF2)).Deltas, nm).coefficients
+                    a2 = got[None] + 2.5 * getattr(solver.getDeltas(to_solver_basis(dF2)).Deltas, nm).coefficients
                     if np.max(np.abs(a1 - a2)) > 1e-10 * (np.max(np.abs(a1)) + sc):
                         rep.violation(f"{nm} is not linear in the deviation", {"N": N, "moment": nm}, finding_key=f"C13:linear:{nm}")
             finally:
